@@ -69,10 +69,14 @@ def ref_set(seed, count=8):
         db = gen.content("license", r.choice([50, 500]), 5) if r.random() < 0.5 else b""
         uncomp = r.random() < 0.3
         cht = r.choice([1, 2]) if uncomp else r.choice([0, 1, 2, 3])
+        # layouts another writer may legitimately emit and the library's own writer never does: unused bytes behind the signatures
+        # (inside the declared header size), optional header elements
+        tail = r.randbytes(r.choice([1, 7, 300])) if i % 3 == 1 else b""
+        opt = [(r.randrange(1, 9), r.randbytes(r.randrange(0, 40))) for _ in range(r.randrange(1, 3))] if i % 4 == 2 else None
         data = zckref.make_file(pieces, comp_type=comp, dict_bytes=db, hash_type=r.choice([0, 1, 2, 3]), chunk_hash_type=cht,
-                                uncomp=uncomp)
-        out.append({"name": "ref-%d" % i, "data": data, "content": b"".join(pieces), "pieces": [len(p) for p in pieces], "dict": db,
-                    "cfg": {"comp": comp, "uncomp": uncomp}})
+                                uncomp=uncomp, header_tail=tail, opt_elems=opt)
+        out.append({"name": "ref-%d%s%s" % (i, "-hdrtail%d" % len(tail) if tail else "", "-optelems" if opt else ""), "data": data, "content": b"".join(pieces),
+                    "pieces": [len(p) for p in pieces], "dict": db, "cfg": {"comp": comp, "uncomp": uncomp}})
     return out
 
 
